@@ -158,6 +158,49 @@ def c04_sessions():
     return c04.async_sessions()
 
 
+def cross_instance_cases():
+    """every transfer between every ordered pair of DIFFERENT instances (a MemoryFS, two PhysicalFS roots, an altroot over
+    a sub-directory of the first physical root): a backend's native rename / copy applies within one instance only"""
+    cases = []
+    for opk in ("copyfile", "movefile", "copydir", "movedir"):
+        c = vfx.Case("c15_cross_%s" % opk)
+        for b in ("mem", "phys", "phys"):
+            c.base(b)
+        insts = [c.fs("base", j) for j in range(3)]
+        c.op("createdirall", vfx.ps(insts[1], "r"))
+        insts.append(c.fs("alt", insts[1], vfx.hexs("/r")))
+        c.has_phys = True
+        g = hist.Cfg(); g.kind = "cross"; g.target = insts[0]; g.watch = insts; g.has_phys = True
+        c.cfg = g
+        n = 0
+        for src in insts:
+            for dst in insts:
+                if src == dst:
+                    continue
+                n += 1
+                sname, dname = "s%d" % n, "d%d" % n
+                if opk in ("copyfile", "movefile"):
+                    hist.write_file(c, src, sname, b"payload %d" % n)
+                    # a file of the destination's name inside the SOURCE instance must stay untouched
+                    hist.write_file(c, src, dname, b"bystander %d" % n)
+                else:
+                    c.op("createdirall", vfx.ps(src, sname + "/sub"))
+                    hist.write_file(c, src, sname + "/sub/f", b"payload %d" % n)
+                c.op(opk, vfx.ps(src, sname), vfx.ps(dst, dname))
+                c.op("snap", src); c.op("snap", dst)
+                # ... and into a directory that exists in the destination instance only
+                c.op("createdirall", vfx.ps(dst, "only%d" % n))
+                if opk in ("copyfile", "movefile"):
+                    hist.write_file(c, src, sname + "b", b"second %d" % n)
+                    c.op(opk, vfx.ps(src, sname + "b"), vfx.ps(dst, "only%d/x" % n))
+                else:
+                    c.op("createdirall", vfx.ps(src, sname + "b/sub"))
+                    c.op(opk, vfx.ps(src, sname + "b"), vfx.ps(dst, "only%d/x" % n))
+                c.op("snap", src); c.op("snap", dst)
+        cases.append(c)
+    return cases
+
+
 def corpus():
     """every operation on every kind of target, on both worlds"""
     stale = [c for c in hist.stale_handle_cases("c15", ["mem", "alt_mem", "ovl_mm"]) if not c.name.endswith("flush_drop")]
@@ -168,7 +211,7 @@ def corpus():
         hist.neighbour_name_cases("c15", ["mem", "ovl_mm"]) + \
         hist.deleted_target_cases("c15") + hist.dotted_name_cases("c15", ["alt_mem", "alt_alt"]) + \
         hist.size_cases("c15", ["mem", "ovl_mm"]) + hist.lower_only_cases("c15", ["ovl_mm", "ovl_mmm"]) + \
-        hist.odd_join_cases("c15", ["alt_mem", "alt_alt"])
+        hist.odd_join_cases("c15", ["alt_mem", "alt_alt"]) + cross_instance_cases()
 
 
 def generate(rng, tier):
